@@ -87,10 +87,17 @@ class ScriptedModel:
         return lambda x: np.zeros_like(np.asarray(x, dtype=float))
 
 
+class ScriptedModelWithoutDensity:
+    """a model that has no theoretical density (the engine then stores the spot rows without a density to plot)"""
+
+    def dimension(self):
+        return 1
+
+
 class ScriptedProcess:
     """Duck-typed Process. `letters` are the terminal spot values of the successive paths."""
 
-    def __init__(self, letters, df, representation="identity"):
+    def __init__(self, letters, df, representation="identity", with_density=True):
         from rpylib.process.process import ProcessRepresentation
 
         self.letters = list(letters)
@@ -99,12 +106,21 @@ class ScriptedProcess:
         self.process_representation = (
             ProcessRepresentation.IDENDITY if representation == "identity" else ProcessRepresentation.LOG
         )
-        self.model = ScriptedModel()
+        self.model = ScriptedModel() if with_density else ScriptedModelWithoutDensity()
         self.calls = 0
         self.log = []
 
     def dimension(self):
         return 1
+
+    def load(self, letters, df=None):
+        """Re-use of ONE process object for another pricing (sub 'history'): a new script of paths (and possibly another
+        discount factor); the call counter and the log start again."""
+        self.letters = list(letters)
+        self.calls = 0
+        self.log = []
+        if df is not None:
+            self._df = df
 
     def initialisation(self, product, *a, **k):
         self.log.append(("initialisation",))
@@ -324,11 +340,59 @@ def build_engine(case, letters, objects=None):
     from rpylib.montecarlo.configuration import ConfigurationStandard
     from rpylib.montecarlo.standard.engine import Engine
 
-    proc = ScriptedProcess(letters, df=case["df"], representation=case.get("rep", "identity"))
+    proc = ScriptedProcess(letters, df=case["df"], representation=case.get("rep", "identity"),
+                           with_density=not case.get("nodensity"))
     product, cv = objects if objects is not None else make_objects(case)
-    conf = ConfigurationStandard(mc_paths=len(letters), seed=None, control_variates=cv,
+    vr = None
+    if case.get("vr"):  # a variance-reduction flag the standard engine accepts and that must not change anything
+        from rpylib.montecarlo.configuration import VarianceReduction, VarianceReductionMethod
+
+        vr = VarianceReductionMethod().add(VarianceReduction.RICHARDSONEXTRAPOLATION)
+    conf = ConfigurationStandard(mc_paths=len(letters), seed=case.get("seed"), control_variates=cv, variance_reduction=vr,
                                  activate_spot_statistics=bool(case["spot"]), nb_of_processes=1)
     return Engine(configuration=conf, process=proc), proc, product
+
+
+SIDE_N = 4  # number of paths of the side engine of the history operations 'other' and 'fork'
+
+
+def script_letters(k, n, reverse=False):
+    """Fixed script of the k-th pricing of a history: the alphabet A4 cycled from offset k (reverse: backwards). Not constant
+    for n >= 2, contains the letter 2.0 which is not in A3, different for different k."""
+    a = ALPHABETS["A4"]
+    return [a[(3 - i + k) % 4] if reverse else a[(i + k) % 4] for i in range(n)]
+
+
+class HistoryObjects:
+    """Product / ControlVariates objects of one history: the SAME object is handed out again when a later pricing has the
+    same (payoff, notional) / (controls, payoff, notional, df), as a user re-pricing with one engine would do."""
+
+    def __init__(self):
+        self._products = {}
+        self._controls = {}
+
+    def product(self, step):
+        key = (step["payoff"], step["notional"])
+        if key not in self._products:
+            self._products[key] = make_product(step["payoff"], step["notional"])
+        return self._products[key]
+
+    @staticmethod
+    def controls_key(step):
+        # the controls of the non-cross kinds do not depend on the product's underlying type: ONE ControlVariates object then
+        # serves products on Spot / LogSpot / Mean of the same dimension (its implied value functions must follow the product)
+        what = step["payoff"] if step["cv"] in CROSS_CV_KINDS else payoff_dim(step["payoff"])
+        return (step["cv"], what, step["notional"], step["df"])
+
+    def controls(self, step):
+        """the real ControlVariates object, or a NoControlVariates instance (what the configuration holds without controls)"""
+        from rpylib.product.product import NoControlVariates
+
+        key = self.controls_key(step)
+        if key not in self._controls:
+            cv = make_controls(step["cv"], payoff_dim(step["payoff"]), step["notional"], step["df"], step["payoff"])
+            self._controls[key] = cv if cv is not None else NoControlVariates()
+        return self._controls[key]
 
 
 def reference_rows(case, letters):
